@@ -2,7 +2,7 @@
 import asyncio
 import struct
 
-from engine.hlib import check, done, reraise
+from engine.hlib import check, done, reraise, untraced
 from engine.vloop import Peer, VLoop, VTime, make_streams
 from gallia.transports import TargetURI
 from gallia.transports import doip as D
@@ -252,4 +252,51 @@ def activation(src, atype, ver, code, at):
             check(kind != "ok", "connection treated as usable although the gateway did not answer with the success code")
     elif at > ACK_TO:
         check(kind != "ok" and when <= ACK_TO, "missing routing activation response did not surface within the response time")
+    return done()
+
+
+def activation_uri(uri, src, target, atype, ver, code, at):
+    """the same through the public entry DoIPTransport.connect(<target URI>): the URI's parameters (any integer notation) are the
+    ones carried by the routing activation request"""
+    loop = VLoop()
+    box = {}
+    saved = (asyncio.open_connection, D.DoIPConfig)
+    real_cfg = D.DoIPConfig
+
+    def cfg(**kw):
+        with untraced():  # pydantic validation of the concrete URI text
+            return real_cfg(**kw)
+
+    async def fake_open(host, port, **kw):
+        reader, writer, tr, proto = make_streams(loop)
+        box.update(tr=tr, host=host, port=port)
+        peer = Peer(loop, reader, proto)
+        peer.feed_at(VTime(at), struct.pack("!BBHL", ver, 255 - ver, 0x0006, 9) + struct.pack("!HHBI", src, target, code, 0))
+        return reader, writer
+
+    async def main():
+        asyncio.open_connection = fake_open
+        D.DoIPConfig = cfg
+        try:
+            try:
+                t = await DoIPTransport.connect(TargetURI(uri))
+                return ("ok", t, loop.now.us)
+            except ConnectionError:
+                return ("refused", None, loop.now.us)
+        finally:
+            asyncio.open_connection, D.DoIPConfig = saved
+
+    task = loop.run(main(), max_steps=40000)
+    asyncio.open_connection, D.DoIPConfig = saved
+    check(task.done(), "connect blocks forever")
+    reraise(task)
+    kind, t, when = task.result()
+    exp = struct.pack("!BBHL", ver, 255 - ver, 0x0005, 7) + struct.pack("!HBI", src, atype, 0)
+    check(box["tr"].all_written()[:len(exp)] == exp, "routing activation request does not carry the URI's source address / activation type / protocol version")
+    if at < ACK_TO:
+        check((kind == "ok") == (code == 0x10), "connection usable although not activated with the success code (or refused although it was)")
+        if kind == "ok":
+            check(t._conn.src_addr == src and t._conn.target_addr == target, "connection does not use the URI's address pair")
+    elif at > ACK_TO:
+        check(kind == "refused", "connect succeeded without a routing activation response in time")
     return done()
